@@ -476,3 +476,41 @@ def c14_r10(ctx):
                                   % (norm.canon(st.value), t.attr) if not ok else "", loc=ctx.nodeloc(f, st))
     if n < 1:
         raise AnalysisError("no per-search counter stored by a per-segment collector method")
+
+
+@rule("C14", "R11", "K9", "the collector chain a search builds has at most one layer that drives the documents itself",
+      min_instances=1,
+      clause="A wrapping collector composes with the layers below it through collect(): WrappingCollector.collect_matches() walks "
+             "matches() and calls self.collect(). A wrapper that overrides collect_matches() and feeds child.collect() itself (filtering, "
+             "collapsing) takes the documents past every collect_matches() below it. So among the wrappers Searcher.collector() can "
+             "stack in one chain, at most one is such a driver -- otherwise the inner driver's logic silently never runs.")
+def c14_r11(ctx):
+    prog = ctx.prog
+    W = prog.cls("collectors.WrappingCollector")
+    drivers = set()
+    for K in prog.subclasses(W, strict=True):
+        f = K.methods.get("collect_matches")
+        if f is None:
+            continue
+        al = norm.aliases(f.node)
+        if any(norm.canon(c.func, al) in ("self.child.collect", "child.collect") for c in norm.calls_in(f.node)):
+            drivers.add(K.name)
+    if len(drivers) < 1:
+        raise AnalysisError("no driving wrapper collector found")
+    f = prog.method("searching.Searcher", "collector", inherited=False)
+    ctx.saw(f)
+    stacked = []
+    fpos = norm.source_pos(f.node)
+    for st in ast.walk(f.node):
+        if isinstance(st, ast.Assign) and isinstance(st.value, ast.Call) and norm.call_name(st.value) in drivers and st.value.args \
+                and isinstance(st.value.args[0], ast.Name) and any(isinstance(t, ast.Name) and t.id == st.value.args[0].id for t in st.targets):
+            stacked.append((fpos(st), norm.call_name(st.value), st))
+    stacked.sort()
+    if not stacked:
+        raise AnalysisError("Searcher.collector() stacks no driving wrapper any more")
+    ctx.ob(f, True, "driving wrappers stacked by Searcher.collector(): %s" % [n for _, n, _ in stacked])
+    for i, (_, name, st) in enumerate(stacked):
+        inner = [n for _, n, _ in stacked[:i]]
+        ctx.ob(f, not inner, "%s is the only layer of its chain that feeds child.collect() itself" % name,
+               detail="it is stacked on top of %s: that layer's collect_matches() never runs when both options are given" % ", ".join(inner) if inner else "",
+               loc=ctx.nodeloc(f, st))
